@@ -82,7 +82,7 @@ PROPS = {
                      ["c13"], {"assumptions": ["the agreement theorems cover 'parser accepts => probe and open report the same size and bytes'; the probe accepting more than the recursive parser is by design"]}),
     "C01": writer_prop("C01", ["parse_exact", "probe_exact", "list_roundtrip", "msg_field_found", "msg_field_absent",
                                 "msg_enumerates_written", "absent_reads_zero", "writer_refines_layout",
-                                "written_tree_reads_back", "written_tree_reads_back_ieee"], ["c01"],
+                                "written_tree_reads_back", "written_tree_reads_back_ieee"], ["c01", "c16"],
                        {"assumptions": ["writer_refines_layout covers the API programs of value trees (compRoot); Copy/Merge of a well-formed source is C16.copy_preserves, Any(raw bytes) enters as a leaf",
                                         "message tags below 2^16 and total sizes below 2^32 (MsgWF); the float laws are proved for the bit-level IEEE model (C10.ieee_laws)"]}),
     "C08": writer_prop("C08", ["type_codes", "fixed_width_big_endian", "string_layout", "varint_widths", "list_big_iff",
